@@ -4,9 +4,14 @@ Each test entry: name (Go test function), quick / thorough: dict(checks=rapid ca
 timeout=s, env={...}, fuzz="30s" for native fuzz targets).
 """
 
+NOT_APPLICABLE = {}
+
 CHECKS = {
     "C11": dict(
         pkg="c11", level="exploration",
+        technique="property-based testing (rapid): grammar-generated queries compared with the abstract query they were rendered from (round trip; where/set behaviourally), must-reject shapes, token/byte mutants; native fuzzing in the thorough tier",
+        level_text="Random search over queries rendered from generated abstract queries in every documented surface variation (clause order, keyword case, separators, whitespace, quoted strings, back-quoted fields); the parse result is compared field by field with the abstract query, where/set by evaluating both on generated rows; 33 grammar-excluded shapes must be rejected with an error; mutants and fuzz inputs must never panic nor be accepted without a select list.",
+        level_note="Validity is defined by doc/querylanguage.md plus the surface freedoms evidenced by query_test.go; exploration only, no claim of absence beyond the generated cases.",
         assumptions=["'valid' means derivable from doc/querylanguage.md plus the surface freedoms shown in query_test.go",
                      "where/set are compared behaviourally on generated rows, not structurally"],
         tests=[
